@@ -170,8 +170,14 @@ def queue_next_n(E):
             items.append(('raise', EXC['ValueError']))
         return GenStub(items)
     E.stubs[SFG + '._generate_next_n'] = gen_stub
-    log = OpaqueLog(E, returns={'__call__': lambda *a: SOpaque('generator', 'gen')})
-    E.builtins['iter'] = M.Builtin('iter', lambda v: SOpaque('iterator', 'iteration'))
+    the_generator = SOpaque('generator', 'gen')
+    iterated = []
+    log = OpaqueLog(E, returns={'__call__': lambda *a: the_generator})
+    E.builtins['iter'] = M.Builtin('iter', lambda v: (iterated.append(v), SOpaque('iterator', 'iteration'))[1])
+    tasks = []
+    E.create_task_hook = lambda E_, t, coro: tasks.append(t)
+    pf, nf = aio.new_task(E, None, 'payload-feeder'), aio.new_task(E, None, 'n-feeder')
+    src.attrs['_payload_feeder'], src.attrs['_n_feeder'] = pf, nf
     rounds = [0]
 
     def on_suspend(E_, what):
@@ -184,6 +190,9 @@ def queue_next_n(E):
     E.await_value(E.call(E.getattr(src, 'queue_next_n'), []))
     E.cover('observed')
     q = src.attrs['_queue'].attrs['_queue']
+    E.prove('queue_next_n:the_application_generator_is_started_exactly_once_and_that_one_is_iterated',
+            len(log.of(factory, '__call__')) == 1 and src.attrs['_generator'] is the_generator and iterated == [the_generator]
+            and isinstance(src.attrs['_iteration'], SOpaque) and src.attrs['_iteration'].ident == 'iteration')
     E.prove('queue_next_n:asks_the_generator_for_exactly_the_dequeued_credit', asked[:1] == [n])
     stop_at = next((i for i, b in enumerate(batch) if b[1]), None)
     want = batch if stop_at is None else batch[:stop_at + 1]
@@ -196,6 +205,7 @@ def queue_next_n(E):
             len(got) == len(want) and all(g[0] is w[0] and g[1] is w[1] for g, w in zip(got, want)))
     if outcome == 2 and stop_at is None:
         E.prove('queue_next_n:generator_failure_signalled_once_to_the_subscriber', [c[1] for c in log.of(sub)] == ['on_error'])
+        E.prove('queue_next_n:after_a_generator_failure_nothing_more_is_fed[payload feeder stopped]', pf.attrs['cancel_requested'] is True)
     else:
         E.prove('queue_next_n:no_error_signal_otherwise', not log.of(sub))
 
